@@ -73,10 +73,11 @@ theorem C08_printed (n : Nat) (hn : n ≤ Gen.MAX_DEPTH) :
 theorem C08_ranges_disjoint (v : Int) (h : v.natAbs ≤ (Gen.VALUE_KNOWN_WIN + 8 * Gen.VALUE_ALL_PIECES).toNat) : isMateScore v = false := by
   have hM : Gen.VALUE_MATE = 640000 := by decide
   have hD : Gen.MAX_DEPTH = 40 := by decide
-  have hK : Gen.VALUE_KNOWN_WIN = 439360 := by decide
-  have hA : Gen.VALUE_ALL_PIECES = 25040 := by decide
+  -- the only fact about the (retunable) evaluation constants that is needed; re-evaluated by the kernel whenever they change
+  have hrel : Gen.VALUE_KNOWN_WIN + 8 * Gen.VALUE_ALL_PIECES < Gen.VALUE_MATE - Gen.MAX_DEPTH := by decide
+  rw [hM, hD] at hrel
   unfold isMateScore lostIn winIn
-  rw [hM, hD]; rw [hK, hA] at h
+  rw [hM, hD]
   simp
   omega
 
